@@ -198,19 +198,10 @@ def check(ctx):
         ctx.ob("C04.c", f"{cname}.forward returns the present current", ok, "", f.where)
 
     # ---------------- (e) sizing and ctor/clear pairing
+    records_sized_and_registered(ctx, "C04.e")
     for cname in SYNAPSES:
         c = P.cls(cname)
         recs = _record_names(P, c)
-        ctx.require("C04.e", f"records of {cname}", len(recs), 1)
-        for name, (call, init) in sorted(recs.items()):
-            a = call.args
-            ok = len(a) >= 4 and dotted(a[2]) == "self.dt" and dotted(a[3]) == "self.delay" and \
-                isinstance(kwarg(call, "inclusive"), ast.Constant) and kwarg(call, "inclusive").value is True
-            ctx.ob("C04.e", f"{cname}: record '{name}' created with (self.dt, self.delay, inclusive=True)", ok, ast.unparse(call)[:120], P.loc(init, call), call)
-            regs = {dotted(x.func): [y.value for y in x.args if isinstance(y, ast.Constant)] for x in P.calls_in(init)
-                    if dotted(x.func) in ("self.add_delayed", "self.add_batched") and any(isinstance(y, ast.Constant) and y.value == name for y in x.args)}
-            ok = "self.add_delayed" in regs and "self.add_batched" in regs
-            ctx.ob("C04.e", f"{cname}: record '{name}' registered through add_delayed and add_batched", ok, f"{sorted(regs)}", P.loc(init, call), call)
         clr = c.find_method("clear")
         ctx.touch(clr)
         reset = {x.func.value.attr for x in P.calls_in(clr) if isinstance(x.func, ast.Attribute) and x.func.attr == "reset" and is_self_attr(x.func.value)}
@@ -224,3 +215,23 @@ def check(ctx):
                 rest = isinstance(v, ast.Constant) and ((x.func.value.attr.startswith("spike") and v.value is False) or (not x.func.value.attr.startswith("spike") and v.value == 0))
                 ctx.ob("C04.e", f"{cname}.clear: {x.func.value.attr} reset to the resting value", rest, ast.unparse(x), P.loc(clr, x), x)
     ctx.assume("RecordTensor.select/peek/push behave as decided in C01/C02")
+
+
+def records_sized_and_registered(ctx, rule):
+    """Every history record of a synapse is created with (self.dt, self.delay, inclusive=True) and registered through
+    add_delayed and add_batched, so that the dt / delay / batch-size setters reach it (shared with C06.f: a record the delay
+    setter does not reach is read at the old step time)."""
+    P = ctx.prog
+    for cname in SYNAPSES:
+        c = P.cls(cname)
+        recs = _record_names(P, c)
+        ctx.require(rule, f"records of {cname}", len(recs), 1)
+        for name, (call, init) in sorted(recs.items()):
+            a = call.args
+            ok = len(a) >= 4 and dotted(a[2]) == "self.dt" and dotted(a[3]) == "self.delay" and \
+                isinstance(kwarg(call, "inclusive"), ast.Constant) and kwarg(call, "inclusive").value is True
+            ctx.ob(rule, f"{cname}: record '{name}' created with (self.dt, self.delay, inclusive=True)", ok, ast.unparse(call)[:120], P.loc(init, call), call)
+            regs = {dotted(x.func): [y.value for y in x.args if isinstance(y, ast.Constant)] for x in P.calls_in(init)
+                    if dotted(x.func) in ("self.add_delayed", "self.add_batched") and any(isinstance(y, ast.Constant) and y.value == name for y in x.args)}
+            ok = "self.add_delayed" in regs and "self.add_batched" in regs
+            ctx.ob(rule, f"{cname}: record '{name}' registered through add_delayed and add_batched", ok, f"{sorted(regs)}", P.loc(init, call), call)
